@@ -30,6 +30,9 @@ pub struct Case {
     pub relevel_mid: bool,
     /// the compressor object has been used for another stream and reset() before this one
     pub pre_reset: bool,
+    /// the first part (up to sync_cut) is fed with flush None instead of Sync: the level change
+    /// of `relevel_mid` then happens with input pending and no block (no header) emitted yet
+    pub cut_none: bool,
 }
 
 pub fn input_of(c: &Case) -> Vec<u8> {
@@ -41,6 +44,11 @@ pub fn input_of(c: &Case) -> Vec<u8> {
         v.push(if c.filler == 0 { 0 } else { [0x10u8, 0x20, 0x30, 0x40, 0x50, 0x60, 0x70][i % 7] });
     }
     v.extend_from_slice(&y);
+    if c.cut_none {
+        // enough further input for the compressor to have *processed* the second copy (it works in
+        // 4096-byte refills) while everything is still pending in its first block
+        v.extend(std::iter::repeat(0x2e).take(9000));
+    }
     // a short tail so the far match is not at the very end
     v.extend_from_slice(b"tail.");
     v
@@ -62,8 +70,8 @@ pub fn check(c: &Case) -> Result<(usize, usize), (String, String)> {
     let mut op = 0;
     let mut ip = 0;
     if let Some(cut) = c.sync_cut {
-        let cut = cut.min(input.len());
-        let (st, ni, no) = compress(&mut comp, &input[..cut], &mut out, TDEFLFlush::Sync);
+        let cut = if c.cut_none { input.len() - 5 } else { cut.min(input.len()) };
+        let (st, ni, no) = compress(&mut comp, &input[..cut], &mut out, if c.cut_none { TDEFLFlush::None } else { TDEFLFlush::Sync });
         if st != TDEFLStatus::Okay || ni != cut {
             return Err(("compress-error".into(), format!("Sync call returned {} consumed {}/{}", st as i32, ni, cut)));
         }
@@ -123,7 +131,7 @@ pub fn check(c: &Case) -> Result<(usize, usize), (String, String)> {
 }
 
 fn to_json(c: &Case) -> Value {
-    json!({"wbits": c.wbits, "level": c.level, "strat": c.strat, "relevel": c.relevel, "r": c.r, "filler": c.filler, "d": c.d, "sync_cut": c.sync_cut, "base": c.base, "relevel_mid": c.relevel_mid, "pre_reset": c.pre_reset})
+    json!({"wbits": c.wbits, "level": c.level, "strat": c.strat, "relevel": c.relevel, "r": c.r, "filler": c.filler, "d": c.d, "sync_cut": c.sync_cut, "base": c.base, "relevel_mid": c.relevel_mid, "pre_reset": c.pre_reset, "cut_none": c.cut_none})
 }
 
 pub fn run(tier: &str) -> i32 {
@@ -155,10 +163,19 @@ pub fn run(tier: &str) -> i32 {
                                 if !th && !near && (d + level as usize + r) % 3 != 0 {
                                     continue;
                                 }
-                                cases.push(Case { wbits: w, level, strat, relevel, r, filler, d, sync_cut: None, base: 0, relevel_mid: false, pre_reset: false });
+                                cases.push(Case { wbits: w, level, strat, relevel, r, filler, d, sync_cut: None, base: 0, relevel_mid: false, pre_reset: false, cut_none: false });
+                                // a level setter called with input pending and no block emitted yet (first part fed
+                                // with flush None), naming the level the compressor already runs at (its own level, or
+                                // 1 where the window setting caps it to 1): changing the level there is documented as
+                                // unsupported, setting it to what it is must be harmless (Default strategy only: the setters
+                                // reset the strategy, so with any other strategy even the same level is a change)
+                                if relevel.is_none() && filler == 0 && level >= 1 && strat == 0 && (near || d >= 4096) && r != 40 {
+                                    let same = if (12..15).contains(&w) { 1 } else { level };
+                                    cases.push(Case { wbits: w, level, strat, relevel: Some(same), r, filler, d, sync_cut: Some(d + r), base: 0, relevel_mid: true, pre_reset: false, cut_none: true });
+                                }
                                 // the same on an object that was used and reset() before
                                 if relevel.is_none() && (near || d == 32768) && r != 40 {
-                                    cases.push(Case { wbits: w, level, strat, relevel, r, filler, d, sync_cut: None, base: 0, relevel_mid: false, pre_reset: true });
+                                    cases.push(Case { wbits: w, level, strat, relevel, r, filler, d, sync_cut: None, base: 0, relevel_mid: false, pre_reset: true, cut_none: false });
                                 }
                                 // level changes after the first (Sync-flushed) part of the stream
                                 if relevel.is_none() && filler == 0 && (near || d >= 4096) {
@@ -166,12 +183,13 @@ pub fn run(tier: &str) -> i32 {
                                         if !th && (l as usize + level as usize + strat as usize) % 3 != 0 {
                                             continue;
                                         }
-                                        cases.push(Case { wbits: w, level, strat, relevel: Some(l), r, filler, d, sync_cut: Some(d - 1), base: 0, relevel_mid: true, pre_reset: false });
+                                        cases.push(Case { wbits: w, level, strat, relevel: Some(l), r, filler, d, sync_cut: Some(d - 1), base: 0, relevel_mid: true, pre_reset: false, cut_none: false });
+
                                     }
                                 }
                                 if near || th {
                                     for back in 0..=3usize {
-                                        cases.push(Case { wbits: w, level, strat, relevel, r, filler, d, sync_cut: Some(d - back), base: 0, relevel_mid: false, pre_reset: false });
+                                        cases.push(Case { wbits: w, level, strat, relevel, r, filler, d, sync_cut: Some(d - back), base: 0, relevel_mid: false, pre_reset: false, cut_none: false });
                                     }
                                 }
                                 // the same repeat at absolute stream offsets around the 32 KiB dictionary
@@ -183,7 +201,7 @@ pub fn run(tier: &str) -> i32 {
                                             continue;
                                         }
                                         if at > d {
-                                            cases.push(Case { wbits: w, level, strat, relevel, r, filler, d, sync_cut: None, base: at - d, relevel_mid: false, pre_reset: false });
+                                            cases.push(Case { wbits: w, level, strat, relevel, r, filler, d, sync_cut: None, base: at - d, relevel_mid: false, pre_reset: false, cut_none: false });
                                         }
                                     }
                                 }
@@ -246,6 +264,7 @@ pub fn replay(v: &Value) -> Option<String> {
         base: v["base"].as_u64().unwrap_or(0) as usize,
         relevel_mid: v["relevel_mid"].as_bool().unwrap_or(false),
         pre_reset: v["pre_reset"].as_bool().unwrap_or(false),
+        cut_none: v["cut_none"].as_bool().unwrap_or(false),
     };
     match guarded(|| check(&c)) {
         Ok(Ok(_)) => None,
